@@ -395,6 +395,9 @@ def logging_cases(chk):
         # programs then contain each action at iteration numbers the 6-iteration grid never reaches
         dict(path=True, print=1, save=1, plot=1, pp=1, ow=False, dne=False, n=8),
         dict(path=True, print=7, save=7, plot=7, pp=7, ow=False, dne=False, n=8),
+        # console logging across an adaptation window of the samplers (every 25 iterations): what printing reads must not be
+        # what the next adaptation uses
+        dict(path=True, print=5, save=None, plot=None, pp=None, ow=False, dne=False, n=27),
     ]
     if chk.tier == "quick":
         cheap = [c for c in full if plots(c) == 0]
